@@ -89,6 +89,8 @@ def gen_case(rng, cfg, idx):
                                     {"k": "backward", "tgt": "Lalias", "seed": None}]
                 c = dict(c, L="Lalias")
         for st in prog:
+            if st["k"] == "leaf" and st.get("kind") == "tensor" and st["out"].startswith("i"):
+                continue    # an index / mask tensor: its values are part of the program's shape logic
             if st["k"] == "leaf" and st.get("kind") == "tensor":
                 r = rng.random()
                 if r < 0.15:
